@@ -47,6 +47,11 @@ programs put / get in it; on FRESH servers the hook is a scheduling point (it pa
 and 2-3 connections arrive while the first bind is still running.  Oracle unchanged (results = alone-run); if the hook ran
 more than once for the one bind and a connection's results differ, the key is serve-start-hook-refired-under-live-connection
 (C42 owns "exactly once" itself; here it is the isolation consequence).
+Shared memory: RpcServer.serve keeps a per-connection _ConnectionShm (dynamic attach of the client segment a request
+advertises).  Scenario one-client-shm-segment-on-several-connections: 3 connections wrap their socket in a client-side
+ShmPipeTransport over ONE client-owned segment (SHM_MIN_BATCH_BYTES = 0 for the scenario), and a sibling connection comes,
+calls and closes between the shm-routed calls of another; oracle unchanged, key
+shared-client-shm-segment-broken-by-sibling-connection.
 The except/finally path of _handle (serve() raising) is exercised by an injected fault: the gauge wrapper raises after
 the inner serve() returned for chosen connections; their slots must be released all the same.
 """
@@ -345,7 +350,7 @@ def run(ctx: Any) -> None:
     case_no = 0
 
     def one_case(name: str, kind: str, maxc: int | None, progs: dict[int, dict[str, Any]], scripts: list[list[list[Any]]], fixed: list[int] | None,
-                 serve_raises: tuple[int, ...] = (), first_bind: int = 0) -> None:
+                 serve_raises: tuple[int, ...] = (), first_bind: int = 0, seg: Any = None) -> None:
         nonlocal case_no
         case_no += 1
         h = handle(kind, maxc)
@@ -354,14 +359,14 @@ def run(ctx: Any) -> None:
             ctx.tally("skipped", f"{kind}/{maxc}: server hung earlier")
             return
         repl0 = {"scenario": name, "transport": kind, "max_connections": maxc, "programs": progs, "scripts": scripts,
-                 "arrivals_during_first_bind": first_bind}
+                 "arrivals_during_first_bind": first_bind, "shared_client_shm_segment": seg is not None}
         # ---- the reference first: every connection script alone on the same server
         alone: list[list[list[list[Any]]]] = []
         for i, sc in enumerate(scripts):
             sk = json.dumps([sc, [progs[c[1] if c[0] == 'unary' else c[2]] for c in sc]], sort_keys=True)
-            key = (kind, maxc, sk)
+            key = (kind, maxc, sk, seg is not None)
             if key not in solo_cache:
-                rs = D.run_case(h, [sc], rng, f"k{case_no}s{i}")
+                rs = D.run_case(h, [sc], rng, f"k{case_no}s{i}", shm_segment=seg)
                 ctx.count("impl_runs")
                 ctx.count("solo_runs")
                 if rs["anomalies"]:
@@ -379,7 +384,7 @@ def run(ctx: Any) -> None:
             ctx.tally("on_serve_start_runs_per_fresh_server", r["hook_runs"])
         else:
             hc = h
-            r = D.run_case(h, scripts, rng, f"k{case_no}", fixed_schedule=fixed, serve_raises=serve_raises)
+            r = D.run_case(h, scripts, rng, f"k{case_no}", fixed_schedule=fixed, serve_raises=serve_raises, shm_segment=seg)
         ctx.count("impl_runs")
         repl = {**repl0, "schedule": r["schedule"]}
         sched = r["schedule"]
@@ -415,7 +420,9 @@ def run(ctx: Any) -> None:
                                   {**detail, "connection": i, "concurrent": seen, "alone": alone[i]})
                 elif done_calls != alone[i][: len(done_calls)]:
                     named = True
-                    ctx.violation("concurrent-trace-differs-from-solo-run", f"connection {i} observed something else than when served alone",
+                    ctx.violation("shared-client-shm-segment-broken-by-sibling-connection" if seg is not None else "concurrent-trace-differs-from-solo-run",
+                                  f"connection {i} observed something else than when served alone"
+                                  + (" (all connections advertise one client-owned shared-memory segment; a sibling connection came, called and closed in between)" if seg is not None else ""),
                                   {**detail, "connection": i, "concurrent": seen, "alone": alone[i]})
             for a in r["anomalies"]:
                 if a.startswith("hang") and "queued, but none entered" in a:
@@ -437,7 +444,12 @@ def run(ctx: Any) -> None:
         # ---- oracle 3: same results as alone
         for i in range(len(scripts)):
             if r["traces"][i] != alone[i]:
-                if first_bind and r["hook_runs"] > 1:
+                if seg is not None:
+                    ctx.violation("shared-client-shm-segment-broken-by-sibling-connection",
+                                  f"connection {i} observed something else than when served alone: all connections advertise one client-owned "
+                                  "shared-memory segment, and what a sibling connection did (e.g. closing) changed this connection's shm-routed calls",
+                                  {**repl, "connection": i, "concurrent": r["traces"][i], "alone": alone[i]})
+                elif first_bind and r["hook_runs"] > 1:
                     ctx.violation("serve-start-hook-refired-under-live-connection",
                                   f"connection {i} observed something else than when served alone: on_serve_start ran {r['hook_runs']} times for one bind and "
                                   "re-initialised the worker state under a connection that was already being served",
@@ -492,6 +504,30 @@ def run(ctx: Any) -> None:
                 for arrivals in (2, 3):
                     for _ in range(3 if thorough else 1):
                         one_case("arrivals-during-first-bind", kind, maxc, kvp, kv_scripts, None, (), arrivals)
+    # ---- several connections of one client advertising the SAME client-owned shared-memory segment (dynamic attach path)
+    if _REPLAY is None:
+        import vgi_rpc.shm as shm_module
+        from vgi_rpc.shm import ShmSegment
+
+        shm_scripts = [[["unary", 1], ["exchange", "exchange", 2, 3, "close"], ["unary", 1], ["iterate", "producer", 2, 0, "stop"]],
+                       [["unary", 1]],
+                       [["exchange", "exchange_h", 2, 1, "close"], ["unary", 1]]]
+        # connection 1 comes, makes a call and goes between the calls of connection 0; then 2 likewise
+        shm_fixed = [0, 0, 1, 1, 1, 0, 0, 2, 2, 0, 2, 2, 2, 2, 2, 0, 0]
+        saved_min = shm_module.SHM_MIN_BATCH_BYTES
+        shm_module.SHM_MIN_BATCH_BYTES = 0  # route even small batches through the segment
+        try:
+            for kind in ("unix", "tcp"):
+                for maxc in ((None, 2, 3) if thorough else (None, 2)):
+                    for fx in ((shm_fixed, None, None) if thorough else (shm_fixed, None)):
+                        sg = ShmSegment.create(1 << 20)
+                        try:
+                            one_case("one-client-shm-segment-on-several-connections", kind, maxc, {1: _P_UNARY, 2: _P_STREAM}, shm_scripts, fx, (), 0, sg)
+                        finally:
+                            sg.unlink()
+                            sg.close()
+        finally:
+            shm_module.SHM_MIN_BATCH_BYTES = saved_min
     n_random = 0 if _REPLAY is not None else (140 if thorough else 36)
     pid0 = 100
     for j in range(n_random):
